@@ -436,6 +436,8 @@ def check_devices(ctx, cirq, n):
         if k > len(pool):
             continue
         op = g.on(*rng.sample(list(pool), k))
+        if rng.random() < 0.3:
+            op = op.with_tags('note')  # a tag does not take an operation out of (or into) a gateset that does not look at tags
         try:
             dev.validate_operation(op)
             accepted = True
@@ -451,7 +453,7 @@ def check_devices(ctx, cirq, n):
             ctx.report_witness(f'device:off-device:{dname}', 'the device accepts an operation on a qubit it does not have', dict(rep, impl_out=[True], spec_out=[False]))
         if in_gateset is not None and accepted and not in_gateset:
             ctx.report_witness(f'device:foreign-gate:{dname}', 'the device accepts an operation that is not in its gateset', dict(rep, impl_out=[True], spec_out=[False]))
-        if in_gateset and on_device and not accepted and dname in ('AQT', 'IonQ'):
+        if in_gateset and on_device and not accepted and (dname in ('AQT', 'IonQ') or (op.tags and len(op.qubits) == 1 and not cirq.is_measurement(op))):
             # (Pasqal devices add geometric constraints, e.g. the control radius, on top of gateset membership)
             ctx.report_witness(f'device:rejects-native:{dname}', 'the device rejects an operation of its gateset on its own qubits', dict(rep, impl_out=[False], spec_out=[True]))
 
